@@ -13,6 +13,7 @@ HOOKS = {
     "StoSOO": lambda: monitors.sweep_hooks("StoSOO"),
     "SequOOL": lambda: monitors.sequool_hooks(),
     "Zooming": lambda: monitors.zooming_hooks(),
+    "VROOM": lambda: monitors.vroom_hooks(),
     "POO": lambda: monitors.poo_hooks(),
     "GPO": lambda: monitors.gpo_hooks("GPO"),
     "PCT": lambda: monitors.gpo_hooks("PCT"),
